@@ -136,19 +136,19 @@ def accumulated (r : MRes) : List Nat :=
   | _ => [0]
 
 /-- the documented meaning: the position `0` is accumulated: "0" -/
-example : accumulated (denMatcher { text := [], args := [], hasBackref := false } Spec.fetch ⟨[], leakGrammar⟩ 20 1024 0) = [48] := by
+example : accumulated (denMatcher { text := [], args := [], hasBackref := false } (Spec.fetch []) ⟨[], leakGrammar⟩ 20 1024 0) = [48] := by
   decide
 
 /-- correct `lenprefix` (mode restored): the operational model gives the same (an instance of `op_eq_den`, hypotheses satisfiable) -/
-example : accumulated (opMatcher { text := [], args := [], hasBackref := false } Spec.fetch ⟨[], leakGrammar⟩ 20 1024 0) = [48] := by
+example : accumulated (opMatcher { text := [], args := [], hasBackref := false } (Spec.fetch []) ⟨[], leakGrammar⟩ 20 1024 0) = [48] := by
   decide
 
 /-- **witness**: with the `lenprefix` of the pinned tree (returns before `s->mode = oldmode`) the position capture is lost:
     `op_eq_den` is false for `lenprefixLeak = true`; the same input is replayed on the implementation by checks/C12.py
     (corpus/C12/targeted.json). -/
 theorem lenprefix_leak_breaks_op_eq_den :
-    accumulated (opMatcher { text := [], args := [], hasBackref := false, lenprefixLeak := true } Spec.fetch ⟨[], leakGrammar⟩ 20 1024 0) = []
-    ∧ accumulated (denMatcher { text := [], args := [], hasBackref := false, lenprefixLeak := true } Spec.fetch ⟨[], leakGrammar⟩ 20 1024 0) = [48] := by
+    accumulated (opMatcher { text := [], args := [], hasBackref := false, lenprefixLeak := true } (Spec.fetch []) ⟨[], leakGrammar⟩ 20 1024 0) = []
+    ∧ accumulated (denMatcher { text := [], args := [], hasBackref := false, lenprefixLeak := true } (Spec.fetch []) ⟨[], leakGrammar⟩ 20 1024 0) = [48] := by
   decide
 
 end Witness
